@@ -120,47 +120,49 @@ def pruneChunk (t : Nat) (c : Chunk) : Chunk :=
            slots := c.slots.map fun x => if x = some t then x else none }
 
 inductive Op
-  | register (t : Nat) (g : Growth)   -- urcu_bp_register() of a thread whose TLS pointer is NULL
-  | unregister (t : Nat)              -- urcu_bp_thread_exit_notifier → urcu_bp_unregister
+  | register (t : Nat) (g : Growth)   -- add_thread() of a thread whose TLS pointer is NULL
+  | unregister (t : Nat)              -- remove_thread() (exit notifier → urcu_bp_unregister)
   | prune (t : Nat)                   -- urcu_bp_after_fork_child() run by thread t
-  | libInit                           -- _urcu_bp_init() (constructor)
-  | libExit                           -- urcu_bp_exit() (destructor)
+  | libInit                           -- _urcu_bp_init()  (constructor, and first half of urcu_bp_register)
+  | libExit                           -- urcu_bp_exit()   (destructor, and second half of urcu_bp_unregister)
   deriving Repr, DecidableEq
 
 inductive Out
   | slot (k i : Nat) (g : Grew)       -- register: slot given, what expand_arena did
-  | freed (k i : Nat) (unmapped : Bool)   -- unregister: slot released, chunks unmapped?
+  | freed (k i : Nat)                 -- unregister: slot released
   | pruned (n : Nat)                  -- number of registry entries removed
-  | unit (unmapped : Bool)
+  | unit (unmapped : Bool)            -- libInit / libExit: were the chunks unmapped?
   deriving Repr, DecidableEq
 
-/-- `urcu_bp_exit`: `if (!--refcount) munmap all chunks` -/
-def dropRef (s : State) : State × Bool :=
-  if s.refcount - 1 = 0 then ({ s with refcount := 0, chunks := [], nexp := 0 }, true)
-  else ({ s with refcount := s.refcount - 1 }, false)
-
+/-- One atomic section.  `urcu_bp_register()` is `libInit` (its `_urcu_bp_init()` call, under
+`init_lock`) followed by `register` (`add_thread()` under `rcu_registry_lock`); thread exit is
+`unregister` (`remove_thread()` under `rcu_registry_lock`) followed by `libExit` (`urcu_bp_exit()`
+under `init_lock`).  The two halves are separate steps because the locks are different: other
+threads (and signal handlers of the same thread) may run in between.  The guards
+`registry.length < refcount` express the calling discipline of the C code: `add_thread` runs only
+after the caller's own `_urcu_bp_init`, `urcu_bp_exit` only after the caller's own
+`remove_thread` (or, in the destructor, balancing the constructor's `_urcu_bp_init`). -/
 def step (s : State) : Op → Option (State × Out)
   | .register t g =>
     match s.tls t with
     | some _ => none
     | none =>
-      match arenaAlloc s.chunks g with
-      | none => none
-      | some (cs, (k, i), gr) =>
-        some ({ chunks := mark cs k i t,
-                registry := (k, i) :: s.registry,
-                tls := upd s.tls t (some (k, i)),
-                refcount := s.refcount + 1,
-                nexp := if gr = .no then s.nexp else s.nexp + 1 }, .slot k i gr)
+      if s.registry.length < s.refcount then
+        match arenaAlloc s.chunks g with
+        | none => none
+        | some (cs, (k, i), gr) =>
+          some ({ s with chunks := mark cs k i t,
+                         registry := (k, i) :: s.registry,
+                         tls := upd s.tls t (some (k, i)),
+                         nexp := if gr = .no then s.nexp else s.nexp + 1 }, .slot k i gr)
+      else none
   | .unregister t =>
     match s.tls t with
     | none => none
     | some (k, i) =>
-      let s1 : State := { s with chunks := clear s.chunks k i,
-                                 registry := s.registry.erase (k, i),
-                                 tls := upd s.tls t none }
-      let (s2, f) := dropRef s1
-      some (s2, .freed k i f)
+      some ({ s with chunks := clear s.chunks k i,
+                     registry := s.registry.erase (k, i),
+                     tls := upd s.tls t none }, .freed k i)
   | .prune t =>
     let keep := s.registry.filter fun (k, i) => slotAt s.chunks k i == some t
     some ({ s with chunks := s.chunks.map (pruneChunk t),
@@ -169,10 +171,10 @@ def step (s : State) : Op → Option (State × Out)
           .pruned (s.registry.length - keep.length))
   | .libInit => some ({ s with refcount := s.refcount + 1 }, .unit false)
   | .libExit =>
-    -- contract: the destructor's urcu_bp_exit balances the constructor's _urcu_bp_init
     if s.registry.length < s.refcount then
-      let (s2, f) := dropRef s
-      some (s2, .unit f)
+      -- `if (!--urcu_bp_refcount)` munmap every chunk, re-initialise the chunk list
+      if s.refcount - 1 = 0 then some ({ s with refcount := 0, chunks := [], nexp := 0 }, .unit true)
+      else some ({ s with refcount := s.refcount - 1 }, .unit false)
     else none
 
 /-- run a list of operations, collecting outputs -/
